@@ -150,7 +150,10 @@ pub fn discharge(s: &mut Solver, rw: &mut Rewriter, hyps: &[Fm], goal: &Fm, sh: 
     hyps.iter().for_each(|f| f.roots(&mut roots));
     goal.roots(&mut roots);
     s.define(&roots);
-    if let SatResult::Unsat = s.query(&v1) {
+    s.set_timeout(2000.min(s.timeout_ms));
+    let r1 = s.query_som(&v1);
+    s.set_timeout(s.timeout_ms);
+    if let SatResult::Unsat = r1 {
         sh.bump(&format!("{tag}.unsat"));
         sh.bump(&format!("{tag}.unsat_stage1_identity"));
         return Verdict::Holds;
@@ -165,6 +168,13 @@ pub fn discharge(s: &mut Solver, rw: &mut Rewriter, hyps: &[Fm], goal: &Fm, sh: 
                 return Verdict::Holds;
             }
         }
+    }
+    // shadow point: if the concrete shadow assignment satisfies every hypothesis and falsifies
+    // the goal it is a counterexample already (it is replayed on the real code like any model)
+    if let Some(m) = shadow_counterexample(hyps, goal) {
+        sh.bump(&format!("{tag}.sat"));
+        sh.bump(&format!("{tag}.sat_at_shadow_point"));
+        return Verdict::Cex(m);
     }
     // stage 2: full hypotheses (asserted un-rewritten: rewriting them by themselves would
     // erase them) and the rewritten goal; stage 3: everything un-rewritten.
@@ -204,6 +214,48 @@ pub fn discharge(s: &mut Solver, rw: &mut Rewriter, hyps: &[Fm], goal: &Fm, sh: 
             }
         }
     }
+}
+
+fn fm_holds_at_shadows(f: &Fm) -> Option<bool> {
+    let sh = |h: H| with_arena(|a| a.shadow(h));
+    Some(match f {
+        Fm::True => true,
+        Fm::False => false,
+        Fm::Eq(a, b) => sh(*a) == sh(*b),
+        Fm::Ne(a, b) => sh(*a) != sh(*b),
+        Fm::And(v) => {
+            for x in v {
+                if !fm_holds_at_shadows(x)? {
+                    return Some(false);
+                }
+            }
+            true
+        }
+        Fm::Or(v) => {
+            for x in v {
+                if fm_holds_at_shadows(x)? {
+                    return Some(true);
+                }
+            }
+            false
+        }
+        Fm::Not(x) => !fm_holds_at_shadows(x)?,
+    })
+}
+
+/// The shadow assignment as a model when it satisfies `hyps` and falsifies `goal`.
+pub fn shadow_counterexample(hyps: &[Fm], goal: &Fm) -> Option<std::collections::BTreeMap<u32, u64>> {
+    // UF shadows are only meaningful when produced by the real permutation; terms with Inv of a
+    // zero shadow have shadow 0 by convention - hypotheses (NonZero) exclude those points.
+    for h in hyps {
+        if !fm_holds_at_shadows(h)? {
+            return None;
+        }
+    }
+    if fm_holds_at_shadows(goal)? {
+        return None;
+    }
+    Some(with_arena(|a| a.var_nodes.iter().enumerate().map(|(v, n)| (v as u32, a.shadows[*n as usize])).collect()))
 }
 
 /// Returns Some(true) when a certificate was found and validated by the solver.
